@@ -122,6 +122,14 @@ func (ch *dagChannel) reportSkip(keys []string) bool {
 			break
 		}
 	}
+	if allSkipped && !ch.Skipped {
+		// the node turns skipped: it will never consume what it already holds, release the streams
+		for _, v := range ch.Values {
+			if sr, ok := v.(streamReader); ok {
+				sr.close()
+			}
+		}
+	}
 	ch.Skipped = allSkipped
 
 	return allSkipped
